@@ -12,7 +12,9 @@ NoFeats == {}
 NoLogs == {}
 Logs1 == {"log"}
 AllModes == {"append", "replace", "reset"}
-AllClasses == {"short", "exact100", "long150", "unicode", "bytes"}
+\* "unicode140": 140 UTF-8 bytes in 73 characters (more bytes than characters,
+\* beyond the default width)
+AllClasses == {"short", "exact100", "long150", "unicode", "unicode140", "bytes"}
 SizesQ == {1, 9, 10, 11}
 SizesT == {1, 9, 10, 11, 21}
 SizesD == {1, 2, 3, 4, 7}
